@@ -18,7 +18,8 @@ LEVEL = ("theorems fy_exists + fy_inj + fy_uniform, pyShuffle_uniform (from any 
          "primitives are validated against the helpers on recorded draws (C03) and exhaustively here")
 ASSUMPTIONS = ["the raw bit source is an ideal uniform source (SHA-256 in counter mode; NumPy's Mersenne Twister); int(i + U(n-i)) "
                "granularity 2^-53", "NumPy's C-level RandomState.shuffle/choice are trusted to be uniform (chi-square support only)",
-               "label vectors with repeated labels: equal multiplicity of every distinct arrangement is checked exhaustively, not proved"]
+               "label vectors with repeated labels: Uniform2.fy_fiber_const / sbi_fiber_const (any two arrangements are produced by "
+               "the same number of draw vectors), and checked exhaustively"]
 
 
 def outcome_weights(run, cls=None):
